@@ -80,7 +80,11 @@ FunctionSubstringAfter::execute(
 
         if (theSecondStringLength == 0)
         {
-            return arg1;
+            // The result is the string value of the first argument,
+            // not the argument itself, which may be of any type.
+            return arg1->getType() == XObject::eTypeString ?
+                        arg1 :
+                        executionContext.getXObjectFactory().createStringAdapter(arg1, executionContext);
         }
         else
         {
